@@ -2421,6 +2421,10 @@ class BDD(dd._abc.BDD[_Ref]):
                 f'Unknown file type of "{filename}"')
         umap, roots = self._load_pickle(
             filename, levels=levels)
+        # dumped without naming roots ?
+        if roots is None:
+            return list()
+        umap[1] = 1
         def map_node(u):
             v = umap[abs(u)]
             if u < 0:
